@@ -10,7 +10,7 @@ REPO="${SEEDED_WT:-/repo}"
 names="${*:-$(ls seeded | grep -E '^C[0-9]+-[0-9]+$' | sort -V)}"
 : > seeded/RERUN.log.new
 for n in $names; do
-  d="seeded/$n"
+  d="$PWD/seeded/$n"
   ids=$(python3 -c "import json,re;m=json.load(open('$d/meta.json'));print(' '.join(re.findall(r'C\d\d', m['detection']['caught_by'])) or m['property'])")
   if ! git -C "$REPO" apply --check "$d/patch.diff" 2>/dev/null; then echo "$n APPLY-FAILED" | tee -a seeded/RERUN.log.new; continue; fi
   git -C "$REPO" apply "$d/patch.diff"
